@@ -37,6 +37,46 @@ def c14(tier):
     return jobs, meta
 
 
+def c06(tier):
+    jobs = [(H('vm', 'HarnessC06MakeRange'), P('vm'), None, {})]
+    kmax = 2 if tier == 'quick' else 3
+    for k in range(kmax):
+        import itertools
+        for kinds in itertools.product(range(3), repeat=k + 1):
+            jobs.append((H('vm', 'HarnessC06Seq'), P('vm'), [[k] + list(kinds)], {}))
+    meta = {
+        'explanation': 'programs assembled from the allocating instructions (OpRange with symbolic 64-bit bounds, OpArray and OpMap literals of 0..3 elements) in every order, k=%d..%d constructs per run, run on the real VM.Run dispatch loop under a symbolic budget; z3 decides for all bounds and budgets that the run succeeds iff the number of elements created (reference: len of each collection, computed in unsigned arithmetic) is below the budget, and that the only failure is the budget error; makeRange contract (len and elements) for all bounds with <= 8 elements' % (1, kmax),
+        'bounds': {'constructs per run': kmax, 'range bounds': 'all int64 values', 'budget': '1..2^20 (default 10^6 is inside)', 'admitted range size on explored paths': '<= 8 elements (makeRange loop unrolled); larger ranges only on refused paths', 'literals': '0..3 elements'},
+        'outside': ['collections created by map/filter builtins (same OpArray accounting, exercised in C18/C01 templates)', 'budgets above 2^20', 'collections returned by environment functions'],
+        'assumptions': COMMON_ASSUME,
+        'must_reach': ['c06.seq.ok', 'c06.seq.err', 'c06.makerange'],
+    }
+    return jobs, meta
+
+
+def c07(tier):
+    import itertools
+    jobs = []
+    for k in range(2):
+        for kinds in itertools.product(range(3), repeat=k + 1):
+            jobs.append((H('vm', 'HarnessC07Prologue'), P('vm'), [[k] + list(kinds)], {}))
+    for first in range(3):
+        for kinds in itertools.product(range(3), repeat=3):
+            if first == 1 and (kinds[0] or kinds[1]): continue
+            if first == 0 and kinds[1]: continue
+            jobs.append((H('vm', 'HarnessC07History'), P('vm'), [[first] + list(kinds)], {}))
+    meta = {
+        'explanation': 'VM.Run executed from a VM value whose every field is symbolic/arbitrary (ip, pp, memory, limit, stale stack and scopes of length <= 2, stale bytecode and constants) and from a zero VM on the same allocating program under a symbolic budget: z3 decides that outcome and result are equal for all field values; plus two-run histories on one VM (first run succeeding, failing midway inside an open scope, or allocating) compared with a fresh VM',
+        'bounds': {'stale stack/scopes': 'length <= 2', 'programs': '1..2 allocating constructs (symbolic range bounds, literals of 0..3 elements)', 'budget': '1..2^20', 'history length': 2},
+        'outside': ['debug-mode VMs (debug/step/curr fields)', 'histories longer than 2 runs other than through the arbitrary pre-state harness'],
+        'assumptions': COMMON_ASSUME + ['pre-state memory counter is >= 0 (what real histories produce when C06 holds)'],
+        'must_reach': ['c07.prologue.ran', 'c07.history.ran'],
+    }
+    return jobs, meta
+
+
 PROPS = {
+    'C06': c06,
+    'C07': c07,
     'C14': c14,
 }
